@@ -52,10 +52,11 @@ SOURCE_OBLIGATIONS = [
     "JanetModel.Props.C06.noSelfMatch_needed",
     "JanetModel.Props.C06.current_good",
     "JanetModel.Props.C06.no_lost_wakeup_partial",
-    "JanetModel.Props.C06.current_source_checks",
 ]
+SOURCE_CHECKS = ["JanetModel.Props.C06.current_source_checks"]
 ENV = dict(os.environ, ASAN_OPTIONS="detect_leaks=0:abort_on_error=0", UBSAN_OPTIONS="print_stacktrace=1")
 NPROC = int(os.environ.get("VERIF_JOBS", "16"))
+LAST_STDOUT_TAIL = {}
 GEOM = {}   # program id -> (log points with a wrapped items ring, of these with count >= limit, max ring capacity)
 
 
@@ -68,6 +69,8 @@ def run_harness_chunk(hx, items):
         data.append(b"P %s %d %d\n" % (pid.encode(), seed, len(src)) + src)
     rc, out, err = run_cmd([hx], input=b"".join(data), timeout=1200, env=ENV)
     res = {}
+    if len(items) == 1:
+        LAST_STDOUT_TAIL[items[0][0]] = out.decode(errors="replace")[-300:]
     for line in out.decode(errors="replace").splitlines():
         if line.startswith("S "):
             g = line.split()
@@ -95,7 +98,8 @@ def run_harness(hx, items):
                 missing = [it for it in chunk if it[0] not in res]
                 first = missing[0] if missing else chunk[-1]
                 rc1, res1, err1 = run_harness_chunk(hx, [first])
-                crashes.append({"program": first[2], "rc": rc1 if rc1 != 0 else rc, "stderr": (err1 if rc1 != 0 else err)[-3000:]})
+                crashes.append({"program": first[2], "seed": first[1], "rc": rc1 if rc1 != 0 else rc, "stderr": (err1 if rc1 != 0 else err)[-3000:],
+                                "stdout_tail": LAST_STDOUT_TAIL.get(first[0], "")})
                 for it in missing[1:]:
                     rc2, res2, err2 = run_harness_chunk(hx, [it])
                     results.update(res2)
@@ -131,6 +135,8 @@ def load_corpus():
                 with open(os.path.join(d, fn)) as f:
                     j = json.load(f)
                 prog = {"limits": j["limits"], "fibers": [[tuple_op(o) for o in ops] for ops in j["fibers"]]}
+                if j.get("sups"):
+                    prog["sups"] = j["sups"]
                 out.append((fn[:-5], prog))
     return out
 
@@ -193,6 +199,11 @@ def gen_programs(ctx, quick, boost):
     r = ctx.rng.fork("ringwrap")
     for k in range(nring):
         items.append(("W%d" % k, r.below(1 << 31), P.ringwrap_program(r)))
+    nsup = (1200 if quick else 40000) * boost
+    r = ctx.rng.fork("supervised")
+    for k in range(nsup):
+        items.append(("V%d" % k, r.below(1 << 31), P.supervised_program(r)))
+    dist["random with supervisor channels (ev/go f nil chan), listeners and closes of the supervisor channel"] = nsup
     dist["ring-wrap pumps (1-2 channels, caps 1..3, up to 11 values pumped through before a select/give on the full channel)"] = nring
     return items, dist
 
@@ -231,24 +242,35 @@ def minimise(hx, prog, seed, kind):
         changed = False
         cands = []
         nf = len(cur["fibers"])
+        sups = cur.get("sups") or [None] * nf
+
+        def mk(fibers, sv=None):
+            d = {"limits": cur["limits"], "fibers": fibers}
+            sv = sups if sv is None else sv
+            if any(x is not None for x in sv):
+                d["sups"] = list(sv)
+            return d
         for f in range(nf - 1, 0, -1):
-            cands.append({"limits": cur["limits"], "fibers": cur["fibers"][:f] + cur["fibers"][f + 1:]})
+            cands.append(mk(cur["fibers"][:f] + cur["fibers"][f + 1:], sups[:f] + sups[f + 1:]))
+        for f in range(1, nf):
+            if sups[f] is not None:
+                cands.append(mk(cur["fibers"], sups[:f] + [None] + sups[f + 1:]))
         for f in range(nf):
             for i in range(len(cur["fibers"][f])):
                 fs = [list(x) for x in cur["fibers"]]
                 del fs[f][i]
                 if f == 0 or fs[f]:
-                    cands.append({"limits": cur["limits"], "fibers": fs})
+                    cands.append(mk(fs))
                 op = cur["fibers"][f][i]
                 if op[0] in "sr" and len(op[1]) > 1:
                     for k in range(len(op[1])):
                         fs = [list(x) for x in cur["fibers"]]
                         fs[f][i] = ("s", op[1][:k] + op[1][k + 1:])
-                        cands.append({"limits": cur["limits"], "fibers": fs})
+                        cands.append(mk(fs))
                 if op[0] == "r":
                     fs = [list(x) for x in cur["fibers"]]
                     fs[f][i] = ("s", op[1])
-                    cands.append({"limits": cur["limits"], "fibers": fs})
+                    cands.append(mk(fs))
         for c in cands:
             budget -= 1
             if budget <= 0:
@@ -303,6 +325,7 @@ def run(ctx, only=None):
     # (B,C) kernel check + audit
     b = ctx.obligations("JanetModel.Props.C06", THEOREMS)
     b += ctx.obligations("JanetModel.Ev.SourceObligations", SOURCE_OBLIGATIONS)
+    b += ctx.obligations("JanetModel.Ev.SourceChecks", SOURCE_CHECKS)
     broken += b
     if b:
         ctx.say("broken obligations: %s" % "; ".join(x[:160] for x in b[:4]))
@@ -406,9 +429,23 @@ def run(ctx, only=None):
     ctx.say("oracle: %d programs fail; kinds %s" % (len(failing), {k: len(v) for k, v in nviol_kinds.items()}))
     # ---- report
     reported = 0
+    # one replay per distinct crash message: the smallest program, minimised
+    by_msg = {}
     for c in crashes:
-        ctx.violation("crash", {"kind": "crash", "detail": c, "janet": P.janet_standalone(c["program"]) if "program" in c else None},
-                      what="implementation crashed / sanitizer report while running a channel program")
+        if "program" not in c:
+            by_msg.setdefault("queue-scripts", c)
+            continue
+        msg = "top level signal" if "top level signal" in (c.get("stdout_tail", "") + c.get("stderr", "")) else (c.get("stderr", "")[-160:] or "process ended")
+        size = sum(len(o) for o in c["program"]["fibers"])
+        if msg not in by_msg or size < sum(len(o) for o in by_msg[msg]["program"]["fibers"]):
+            by_msg[msg] = c
+    for msg, c in sorted(by_msg.items()):
+        if "program" in c and hx:
+            small = minimise(hx, c["program"], c.get("seed", 0), "crash")
+            c = dict(c, program=small, prog=small, short=P.short(small), kind="crash", rng_seed=c.get("seed", 0))
+        ctx.violation("crash:" + msg[:60], dict({"kind": "crash", "detail": msg, "janet": P.janet_standalone(c["program"]) if "program" in c else None,
+                                                "crashing_programs": len(crashes)}, **{k: v for k, v in c.items() if k != "detail"}),
+                      what="the implementation ended / crashed while running a channel program (%s)%s" % (msg[:80], ": " + P.short(c["program"]) if "program" in c else ""))
         reported += 1
     if "queue" in nviol_kinds:
         q = nviol_kinds["queue"][0]
@@ -479,5 +516,7 @@ def replay(ctx, path):
     print(json.dumps({k: r.get(k) for k in ("kind", "program", "oracle", "implementation_verdict")}, indent=1))
     if r.get("prog"):
         prog = {"limits": r["prog"]["limits"], "fibers": [[tuple_op(o) for o in ops] for ops in r["prog"]["fibers"]]}
+        if r["prog"].get("sups"):
+            prog["sups"] = r["prog"]["sups"]
         return run(ctx, only=[("replay", r.get("rng_seed", 0), prog)])
     return run(ctx)
